@@ -684,12 +684,10 @@ func closeto(e *vlib.Env, j int) vlib.Result {
 		h := started[i]
 		g := make(chan struct{})
 		var once sync.Once
-		entered, want := &h.handled, h.handled.Load()+1
 		if heldAt == "publish" {
 			// the handler function has returned; the router publishes what it produced and the publisher does not come back
 			h.pubGate.Store(&g)
 			gates = append(gates, func() { once.Do(func() { h.pubGate.Store(nil); close(g) }) })
-			entered, want = &h.publishing, h.publishing.Load()+1
 		} else {
 			h.gate.Store(&g)
 			gates = append(gates, func() { once.Do(func() { h.gate.Store(nil); close(g) }) })
@@ -699,7 +697,8 @@ func closeto(e *vlib.Env, j int) vlib.Result {
 			res.Reason = "no subscription to emit the held message on: " + spec
 			return finish()
 		}
-		if oc, _ := vlib.WaitUntil(func() bool { return entered.Load() >= want }, w.wo); oc != vlib.Done {
+		// (the message that ends up held may be the previous one, if that was still on its way through the handler)
+		if oc, _ := vlib.WaitUntil(func() bool { return h.heldNow.Load() >= 1 }, w.wo); oc != vlib.Done {
 			res.Verdict = vlib.Unreached
 			res.Reason = "the handler function was not entered: " + spec
 			return finish()
